@@ -1040,7 +1040,11 @@ def rule_argument_order(em, rep, rid):
     reg = _method_view(em, 'register_function')
     src = norm(reg.node)
     k2 = reg.qname + ':arity'
-    if 'inspect.signature(func).parameters' in src or 'co_argcount' in src or 'getfullargspec' in src:
-        rep.ok(rid, k2, 'arity inferred from the signature when not given', reg.loc())
+    if 'co_argcount' in src or '__code__' in src or 'co_varnames' in src:
+        rep.violation(rid, k2, 'the arity of a registered function is read from its code object: for a decorated function (functools.wraps), a '
+                      'partial or a def f(a, *rest) this is not the number of arguments inspect.signature reports, so the function is stored '
+                      'under a key that no call looks up and the Python predicate silently has no solutions', reg.loc())
+    elif 'inspect.signature(' in src and '.parameters' in src:
+        rep.ok(rid, k2, 'arity inferred from inspect.signature when not given', reg.loc())
     else:
         rep.violation(rid, k2, 'the arity of a registered function is not derived from its signature', reg.loc())
